@@ -237,6 +237,12 @@ class Check(PropertyCheck):
 
     def replay(self, path):
         p = json.load(open(path))
+        if p.get("kind") == "leak" and schedx_part:
+            c = schedx_part.Crafted("replay", bytes.fromhex(p["input_hex"]), None, True)
+            rc, o, e, h = schedx_part.heap_run(vlib.build_lbzip2("rel"), c, int(p["n"]), None,
+                                               None if p.get("in_granul") in (None, "None") else int(p["in_granul"]), os.path.join(self.work, "heap"))
+            print("rc=%s live_at_exit=%s (limit %d)" % (rc, h[0] if h else None, LEAK_LIMIT))
+            return 1 if (rc == 0 and h and h[0] > LEAK_LIMIT) else 0
         if "n" not in p:
             print("replay file names no input:", json.dumps(p.get("broken"), indent=1)[:3000])
             return 1
